@@ -79,6 +79,7 @@ class Core:
         self.tls = False
         self.sent = bytearray()
         self.chunks = []         # scripted recv chunks (used by C12)
+        self.dead = False        # the peer has reset / the connection failed: shutdown() raises from now on
 
 
 class FakeSock:
@@ -143,7 +144,8 @@ class FakeSock:
 
     def shutdown(self, how):
         self.core.shutdowns += 1
-        if self.core.peer is None:
+        if self.core.peer is None or self.core.badpeer == "gone" or self.core.dead:
+            # never connected, or the peer has reset the connection: the kernel refuses the shutdown
             raise OSError(_errno.ENOTCONN, "Transport endpoint is not connected")
 
     def close(self):
@@ -165,6 +167,7 @@ class FakeSock:
             return b"x"
         if o == "eof":
             return b""
+        c.dead = True
         if o == "reset":
             raise ConnectionResetError(_errno.ECONNRESET, "Connection reset by peer")
         raise OSError(_errno.EIO, "Input/output error")
@@ -285,6 +288,15 @@ def directed():
                                          ["connects", [C(2, False, ["ok"]), C(3, False, ["ok"])]], ["cxes"], ["close"]]},
         {"kind": "tls", "bl": 3, "evs": [["reopen", False], ["accepts", [C(0), C(1)]], ["accepts", [C(2), C(3)]], ["reopen", False],
                                          ["connects", [C(0, False, ["ok"]), C(1), C(2), C(3, False, ["ok"])]], ["close"]]},
+        # connections accepted but not serviced yet, one of them already reset by its peer (its shutdown() raises
+        # ENOTCONN), then close / reopen: all of them are closed and .axes is empty (seeded change C11-12 witness)
+        {"kind": "server", "evs": [["reopen", False], ["accepts", [C(0), C(1, "gone"), C(2), C(3)]], ["close"]]},
+        {"kind": "tls", "evs": [["reopen", False], ["accepts", [C(0, "gone"), C(1, False, ["ok"])]], ["reopen", False],
+                                ["connects", [C(2, False, ["ok"])]], ["close"]]},
+        {"kind": "server", "evs": [["reopen", False], ["axes", [C(0), C(1, True), C(2, "gone"), C(3)]], ["close"]]},
+        # established and pending connections whose peers reset them: shutdown() raises at close time
+        {"kind": "tls", "evs": [["reopen", False], ["connects", [C(0, False, ["ok"]), C(1, False, ["ok"]), C(2, False, ["want"])]],
+                                ["recv", 0, "reset"], ["recv", 1, "eof"], ["accepts", [C(3, "gone")]], ["close"]]},
         # malformed accepted socket and queued axes
         {"kind": "server", "evs": [["reopen", False], ["axes", [C(0), C(1, True), C(2)]], ["close"]]},
         {"kind": "server", "evs": [["reopen", False], ["accepts", [C(0), C(1)]], ["close"], ["reopen", False],
@@ -352,7 +364,7 @@ def _gen_server(rng, tls):
             evs.append(["connects", _gen_conns(rng, tls)])
         elif r < 0.45:
             evs.append(["axes", _gen_conns(rng, tls)])
-        elif r < 0.50:
+        elif r < 0.53:
             evs.append(["accepts", _gen_conns(rng, tls)])
         elif r < 0.60 and tls:
             evs.append(["cxes"])
@@ -426,7 +438,7 @@ def _run_server(case):
     tls = case["kind"] == "tls"
     world = World()
     tymist = tyming.Tymist(tyme=0.0, tock=1.0)
-    results, opens, outside = [], [], []
+    results, opens, outside, queued = [], [], [], []
     with patched(world):
         kw = dict(ha=("127.0.0.1", world.port), tymth=tymist.tymen())
         if case.get("bl"):
@@ -473,7 +485,10 @@ def _run_server(case):
                 raise ValueError(op)
             results.append(r)
             opens.append(world.open_ids())
-    return {"results": results, "opens": opens, "created": len(world.socks), "outside_at_close": outside}
+            if op == "close":
+                queued.append(len(srv.axes))
+    return {"results": results, "opens": opens, "created": len(world.socks), "outside_at_close": outside,
+            "queued_after_close": queued}
 
 
 def _run_client(case):
@@ -545,6 +560,8 @@ def oracle(case, obs):
             if ev[0] == "close" and obs["opens"][i]:
                 return (f"after close (event {i}) sockets {obs['opens'][i]} of {obs['created']} created are still open "
                         f"(close() never called on them)")
+        if any(obs.get("queued_after_close", [])):
+            return f"after close .axes still holds accepted connections: {obs['queued_after_close']}"
         return None
     if not _wellformed_client(case, obs):
         return None
@@ -744,10 +761,20 @@ def _real_round(tls, rng, see_reset=None):
             replaced += 1
         c = connect(lport)
         service()
+        if rng.random() < 0.6:
+            # accepted but not serviced when the server closes, the first of them already reset by its peer
+            c = connect(); connect()
+            c.setsockopt(_socket.SOL_SOCKET, _socket.SO_LINGER, __import__("struct").pack("ii", 1, 0))
+            c.close()
+            clients.remove(c)
+            time.sleep(0.005)
+            srv.serviceAccepts()
         held_before_close = len(kept)
         if rng.random() < 0.5:
             srv.reopen(); service(1)
         srv.close()
+        if len(srv.axes):
+            return f"{'TLS' if tls else 'plain'} server over loopback: {len(srv.axes)} accepted connections left in .axes after close"
         not_closed = [s for s in kept.values() if s.fileno() != -1]
         for c in clients:
             c.close()
